@@ -35,6 +35,8 @@ type LoopSpec struct {
 	Invs      []*Clause
 	Decreases *Clause
 	Steps     []GhostStep // executed before every back edge
+	Inits     []GhostStep // executed right before the loop is entered
+	Exits     []*Clause   // asserted when the loop condition becomes false
 	Unroll    bool
 }
 
@@ -142,7 +144,7 @@ var topKeywords = map[string]bool{"func": true, "pred": true, "def": true, "fun"
 	"owned": true, "trusted": true, "immutable": true, "alloc": true, "lockorder": true, "chan": true, "env": true, "confined": true}
 var fnKeywords = map[string]bool{"requires": true, "ensures": true, "loop": true, "invariant": true, "decreases": true,
 	"step": true, "let": true, "mode": true, "modifies": true, "ghostvar": true, "mathint": true, "thread": true,
-	"pure": true, "unroll": true, "noinline": true, "consumes": true, "opt": true, "effect": true, "atcall": true}
+	"pure": true, "unroll": true, "noinline": true, "consumes": true, "opt": true, "effect": true, "atcall": true, "init": true, "exit": true, "writes": true}
 
 type rawDirective struct {
 	kw   string
@@ -605,6 +607,30 @@ func (cs *Contracts) loadFile(path string) error {
 					return fail("unroll outside loop")
 				}
 				curLoop.Unroll = true
+			case "exit":
+				if curLoop == nil {
+					return fail("exit outside loop")
+				}
+				c, err := parseClause(d, d.text)
+				if err != nil {
+					return err
+				}
+				curLoop.Exits = append(curLoop.Exits, c)
+			case "writes":
+				cur.Opts["writes"] = strings.TrimSpace(d.text)
+			case "init":
+				if curLoop == nil {
+					return fail("init outside loop")
+				}
+				i := strings.Index(d.text, "=")
+				if i < 0 {
+					return fail("bad init")
+				}
+				e, err := parseSpecExpr(strings.TrimSpace(d.text[i+1:]))
+				if err != nil {
+					return fail("%v", err)
+				}
+				curLoop.Inits = append(curLoop.Inits, GhostStep{Var: strings.TrimSpace(d.text[:i]), Expr: e, Src: d.text})
 			case "step":
 				if curLoop == nil {
 					return fail("step outside loop")
